@@ -1991,7 +1991,7 @@ def run(ctx: vlib.Ctx):
             drop_module(c.mod)
 
 
-THEOREMS = ["C18_wrapper_transparent", "C18_share", "C18_share_unionfree", "C18_share_union_refuted",
+THEOREMS = ["C18_labels_arg_or_supply", "C18_two_calls_disjoint", "C18_decode_two_calls_disjoint", "C18_wrapper_transparent", "C18_share", "C18_share_unionfree", "C18_share_union_refuted",
             "C18_decode_dialect_independent", "C18_decode_fresh", "C18_default_fresh", "C18_decode_all_fresh", "C18_decode_union_fresh", "C18_no_mutation",
             "C18_decode_no_mutation", "C18_share_partial", "C18_share_full_refuted"]
 
